@@ -429,7 +429,7 @@ class Engine:
         return u
 
     # ---- main loop ------------------------------------------------------------------------------------------
-    def run(self, entry, args, ghost=None, mem=None, nn=(), label=None):
+    def run(self, entry, args, ghost=None, mem=None, nn=(), label=None, syms=None):
         fn = self.mod.func(entry)
         if fn is None or fn.decl:
             raise AnalysisBroken('symex: entry function %s not found' % entry)
@@ -437,7 +437,7 @@ class Engine:
         regs = {}
         for a, v in zip(fn.args, args):
             regs[a['id']] = v
-        st = State([Frame(fn, fn.entry.id, 0, None, regs, None, 0)], {}, dict(mem or {}), dict(ghost or {}), set(nn), ())
+        st = State([Frame(fn, fn.entry.id, 0, None, regs, None, 0)], dict(syms or {}), dict(mem or {}), dict(ghost or {}), set(nn), ())
         self.steps0 = self.steps
         key = self.memo_key(st, entry, list(args))
         if key is not None and key in self.memo:
@@ -967,7 +967,7 @@ class Engine:
                 if sym is not None:
                     s2.S[sym] = frozenset(t[0] for t in ts)
                 rec = Record('trans', inst, s2, wc=wc, instance=instance, how='cas', ord=inst.x['ord'], pairs=[(t[1], t[2]) for t in ts],
-                             hold=hold, spin=spin, effect=eff, entry=self.entry_name)
+                             hold=hold, spin=spin, effect=eff, entry=self.entry_name, expected=E, newv=N)
                 nh, ns = self.new_ghost(hold, spin, eff)
                 self.set_lk(s2, wc, instance, nh, ns)
                 if sym is not None and ns == 1 and (wc.name != 'mu' or nh == 'W'):
